@@ -117,3 +117,21 @@ contract(f"{RV}.solve", setup=setup_rsolve,
                             z3.Or(c.traj.meas(c.self.attrs["iteration"]) < c.thr, toz3(c.self.attrs["iteration"]) == c.n0 + c.maxit))),
              "gain_is_residual_component": post_gain_residual,
              "policy_greedy": lambda c, q: q.forall(0, N, lambda x: c.self.attrs["policy"].vec((x,)) == AC(Greedy(c.self.attrs["values"], z3.RealVal(1), ST(x)))) if isinstance(c.self.attrs["policy"], SArr) else z3.BoolVal(False)})
+
+# ---- thresholds and base initialisation (C08)
+def setup_rthr(I):
+    mod = I.load_module("mdpax.solvers.relative_value_iteration").globals
+    e = z3.Real("epsilon"); I.assume(e > 0)
+    return Ctx(self=Obj(mod["RelativeValueIteration"], {"epsilon": e}, label="solver"), _args=[], e=e)
+import contracts.logging_configs
+contract(f"{RV}._setup_convergence_testing", setup=setup_rthr,
+    ensures={"threshold_is_epsilon": lambda c, q: toz3(c.self.attrs["conv_threshold"]) == c.e,
+             "test_is_span": lambda c, q: z3.BoolVal(c.self.attrs["_convergence_test_fn"].qualname.endswith("_get_span"))})
+def setup_base_init(I):
+    s, Pb, dims, gamma = mk_solver(I)
+    I.call(I.getattr(s, "_setup_jax_functions"), [], {})
+    s.attrs["batched_states"] = prepared(Pb, dims)
+    return Ctx(self=s, _args=[])
+contract(f"{SOLV}._initialize_solver_state_elements", setup=setup_base_init, modifies={"values", "policy", "iteration"},
+    ensures={"iteration_zero_values_initial_policy_none": lambda c, q: z3.And(toz3(c.self.attrs["iteration"]) == 0, z3.BoolVal(c.self.attrs["policy"] is None),
+                 q.forall(0, N, lambda x: toz3(c.self.attrs["values"].get((x,))) == INITV(ST(x))))})
